@@ -18,6 +18,7 @@ in container type, structure, significant order or content give unequal keys"):
 """
 from __future__ import annotations
 
+import dataclasses
 import array
 import collections
 import copy
@@ -50,6 +51,26 @@ class Obj:
 
     def __repr__(self):
         return f"Obj({pyrepr(self.payload)})"
+
+
+@dataclasses.dataclass
+class DCa:
+    """Two ordinary (non-frozen, hence unhashable) dataclasses with the SAME field names ..."""
+
+    value: object
+
+
+@dataclasses.dataclass
+class DCb:
+    value: object
+
+
+@dataclasses.dataclass
+class DOuter:
+    """... and one that holds instances of them (directly or inside containers)."""
+
+    name: str
+    inner: object
 
 
 # ----------------------------------------------------------------------------------------------- pools
